@@ -120,58 +120,61 @@ def child_env(extra):
     return e
 
 
+def run_chunk(items, idxs, env, results, timeout=600):
+    """Run items[idxs] in one child process under `env`; a child that dies (abort, stack overflow, timeout) loses
+    only the program it was running: the rest of the chunk is run again in a new child."""
+    import subprocess
+    todo = list(idxs)
+    while todo:
+        text = SEP.join(PSEP.join(items[i]) for i in todo) + "\n"
+        try:
+            p = subprocess.run([C.bin_path("c02")], input=text, stdout=subprocess.PIPE, stderr=subprocess.PIPE,
+                               timeout=timeout, text=True, env=child_env(env), errors="replace")
+            rc, out, err = p.returncode, p.stdout, p.stderr
+        except subprocess.TimeoutExpired as ex:
+            out = ex.stdout or ""
+            if isinstance(out, bytes):
+                out = out.decode(errors="replace")
+            rc, err = 124, "timeout"
+        recs = parse_records(out)
+        k = 0
+        for k, i in enumerate(todo):
+            if k < len(recs) and len(recs[k]) == len(items[i]):
+                results[i] = recs[k]
+            else:
+                break
+        else:
+            return
+        i = todo[k]
+        why = "timeout" if rc == 124 else "exit %d: %s" % (rc, " ".join((err or "").strip().splitlines()[-1:])[:160])
+        got = recs[k] if k < len(recs) else []
+        crash = {"out": "", "res": ("crash", why)}
+        results[i] = got + [crash] + [None] * (len(items[i]) - len(got) - 1)
+        todo = todo[k + 1:]
+
+
 def run_config(items, env, workers, timeout=600):
     """items: list of programs (each a list of piece texts).  Returns list of list of records (None for a piece
     that was not reached because the child died)."""
     n = len(items)
     results = [None] * n
-
-    def run_chunk(idxs):
-        todo = list(idxs)
-        while todo:
-            text = SEP.join(PSEP.join(items[i]) for i in todo) + "\n"
-            try:
-                import subprocess
-                p = subprocess.run([C.bin_path("c02")], input=text, stdout=subprocess.PIPE, stderr=subprocess.PIPE,
-                                   timeout=timeout, text=True, env=child_env(env), errors="replace")
-                rc, out, err = p.returncode, p.stdout, p.stderr
-            except subprocess.TimeoutExpired as ex:
-                out = ex.stdout or ""
-                if isinstance(out, bytes):
-                    out = out.decode(errors="replace")
-                rc, err = 124, "timeout"
-            recs = parse_records(out)
-            k = 0
-            for k, i in enumerate(todo):
-                if k < len(recs) and len(recs[k]) == len(items[i]):
-                    results[i] = recs[k]
-                else:
-                    break
-            else:
-                return
-            i = todo[k]
-            why = "timeout" if rc == 124 else "exit %d: %s" % (rc, " ".join((err or "").strip().splitlines()[-1:])[:160])
-            got = recs[k] if k < len(recs) else []
-            crash = {"out": "", "res": ("crash", why)}
-            results[i] = got + [crash] + [None] * (len(items[i]) - len(got) - 1)
-            todo = todo[k + 1:]
-
     chunks = [list(range(i, n, workers)) for i in range(workers)]
-    C.pool_map(run_chunk, [c for c in chunks if c], workers=workers)
+    C.pool_map(lambda c: run_chunk(items, c, env, results, timeout), [c for c in chunks if c], workers=workers)
     return results
 
 
+CHUNK = 8
+
+
 def run_all_configs(items, configs, values):
-    """-> dict cfg_name -> results.  All (config, chunk) tasks share one pool of NCPU workers."""
-    per = max(1, min(C.NCPU, (len(items) + 5) // 6))
-    out = {}
-
-    def one(cfg):
-        return cfg_name(cfg), run_config(items, cfg_env(cfg, values), per)
-
-    conc = max(1, C.NCPU // per)
-    for name, res in C.pool_map(one, configs, workers=conc):
-        out[name] = res
+    """-> dict cfg_name -> results.  One flat list of (configuration, chunk of items) tasks on NCPU workers; the
+    chunking is the same for every configuration (an item always shares its child process with the same items)."""
+    n = len(items)
+    out = {cfg_name(c): [None] * n for c in configs}
+    nchunks = max(1, (n + CHUNK - 1) // CHUNK)
+    chunks = [list(range(i, n, nchunks)) for i in range(nchunks)]
+    tasks = [(c, ch) for ch in chunks if ch for c in configs]
+    C.pool_map(lambda t: run_chunk(items, t[1], cfg_env(t[0], values), out[cfg_name(t[0])]), tasks, workers=C.NCPU)
     return out
 
 
@@ -403,15 +406,31 @@ def wrong_arity_call(pieces):
     return False
 
 
-def process(ctx, batch, configs, values, stats, known):
+def process_many(ctx, batches, configs, values, stats, known):
+    """All batches in one pool (no barrier between batches), then the verdicts batch by batch."""
+    batches = [b for b in batches if b.items]
+    items = [it for b in batches for it in b.items]
+    t = time.time()
+    allrecs = run_all_configs(items, configs, values)
+    ctx.log("%d items x %d configurations in %.0fs (%s)" % (len(items), len(configs), time.time() - t,
+                                                           ", ".join("%s %d" % (b.label, len(b.items)) for b in batches)))
+    off = 0
+    for b in batches:
+        recs = {name: r[off: off + len(b.items)] for name, r in allrecs.items()}
+        off += len(b.items)
+        process(ctx, b, configs, values, stats, known, recs)
+
+
+def process(ctx, batch, configs, values, stats, known, recs=None):
     if not batch.items:
         return
     t = time.time()
     names = [cfg_name(c) for c in configs]
     by_name = dict(zip(names, configs))
-    recs = run_all_configs(batch.items, configs, values)
+    if recs is None:
+        recs = run_all_configs(batch.items, configs, values)
+        ctx.log("%s: %d items x %d configurations in %.0fs" % (batch.label, len(batch.items), len(configs), time.time() - t))
     spec, src = ([None] * len(batch.items), 0) if batch.nospec else run_spec(batch.spec)
-    ctx.log("%s: %d items x %d configurations in %.0fs" % (batch.label, len(batch.items), len(configs), time.time() - t))
     if src != 0 or len(spec) != len(batch.items):
         ctx.notes.append("%s: reference evaluator returned %d of %d items (rc=%d)" % (batch.label, len(spec), len(batch.items), src))
         spec = spec + [None] * (len(batch.items) - len(spec))
@@ -646,6 +665,13 @@ def run(ctx):
     translator_ok = rc == 0
     ctx.log("translator: rc=%d %d switches" % (rc, tout.count("switch ")))
     pr = C.prove(ctx, "C02", ["c02driver"])
+    recheck = "not run (thorough tier only)"
+    if not ctx.quick() and pr["ok"]:
+        with C._Lock("lake"):
+            rc2, out2 = C.sh(["lake", "env", "leanchecker", "SteelVerif.C02.Props"], cwd=C.LEAN, timeout=1200)
+        recheck = "ok" if rc2 == 0 else "FAILED: " + out2[-500:]
+        if rc2 != 0:
+            ctx.violation("C02-leanchecker.txt", "leanchecker rejects SteelVerif.C02.Props:\n" + out2[-3000:], no_input=True)
     ok, log = C.build_harness(ctx, ["c02"])
     if not ok or not os.path.exists(C.driver_path("c02driver")):
         ctx.violation("C02-build.txt", "harness or driver does not build:\n" + log + pr["log"][-2000:], no_input=True)
@@ -675,27 +701,29 @@ def run(ctx):
     rng = random.Random(ctx.seed)
     q = ctx.quick()
 
-    # 1. directed corpus
+    batches = []
+
+    # 1. directed corpus (first in the verdict order)
     b = Batch("corpus")
     for fn, pieces, cls in corpus_items():
         b.add(pieces, cls=cls, meta=fn)
-    process(ctx, b, configs, values, stats, known)
+    batches.append(b)
 
     # 2. whole programs
     b = Batch("prog")
-    for _ in range(80 if q else 450):
+    for _ in range(60 if q else 450):
         src, feats = gen_program(rng, 3 if q else 4)
         for f in feats:
             stats["features"][f] = stats["features"].get(f, 0) + 1
         b.add([src])
-    process(ctx, b, configs, values, stats, known)
+    batches.append(b)
 
     # 3. lowered-core programs: model value (evalIR, with and without the model's inlining) = value under every configuration
-    b = frag_batch(rng, 50 if q else 250, stats, ctx)
-    process(ctx, b, configs, values, stats, known)
+    batches.append(frag_batch(rng, 36 if q else 250, stats, ctx))
+
     # 4. whole-language histories: main stream (outside the classes of the findings), the K02a stream (random +
     #    directed patterns) and the K02b patterns
-    for stream, n in (("main", 50 if q else 300), ("k02a", 12 if q else 50)):
+    for stream, n in (("main", 40 if q else 300), ("k02a", 12 if q else 50)):
         b = Batch("hist-" + stream)
         for k in range(n):
             if stream == "k02a" and k % 2 == 0:
@@ -705,38 +733,39 @@ def run(ctx):
             for f in h["features"]:
                 stats["features"][f] = stats["features"].get(f, 0) + 1
             b.add(h["pieces"], spec=h["spec"], cls=h["k02a"])
-        process(ctx, b, configs, values, stats, known)
+        batches.append(b)
     b = Batch("k02b")
     for _ in range(6 if q else 24):
         h = gen_k02b_pattern(rng)
         for f in h["features"]:
             stats["features"][f] = stats["features"].get(f, 0) + 1
         b.add(h["pieces"], spec=h["spec"])
-    process(ctx, b, configs, values, stats, known)
+    batches.append(b)
 
     # 4b. programs over user modules (STEEL_MODULE_INLINE); the reference semantics has no modules
     moddir = os.path.join(ctx.scratch, "mods")
-    for stream, n in (("main", 16 if q else 120), ("k02c", 6 if q else 24)):
+    for stream, n in (("main", 14 if q else 120), ("k02c", 6 if q else 24)):
         b = Batch("mod-" + stream)
         b.nospec = True
         for _ in range(n):
             h = gen_module_program(rng, moddir, stream)
             stats["features"]["modules"] = stats["features"].get("modules", 0) + 1
             b.add(h["pieces"], cls={"K02c": h["k02c"]})
-        process(ctx, b, configs, values, stats, known)
+        batches.append(b)
 
     # 4c. operand-type coverage of the native tier (no reference semantics: bignums, floats, rationals)
     b = Batch("jitops")
     b.nospec = True
-    for _ in range(24 if q else 200):
+    for _ in range(20 if q else 200):
         h = gen_jitops_program(rng)
         stats["features"]["jit-operand-types"] = stats["features"].get("jit-operand-types", 0) + 1
         b.add(h["pieces"])
-    process(ctx, b, configs, values, stats, known)
+    batches.append(b)
 
     # 5. model histories (lowered-core): the Lean model predicts the value under every configuration inside the guard
-    b = model_hist_batch(rng, 30 if q else 160, stats, ctx)
-    process(ctx, b, configs, values, stats, known)
+    batches.append(model_hist_batch(rng, 24 if q else 160, stats, ctx))
+
+    process_many(ctx, batches, configs, values, stats, known)
 
     for kid in known:
         if kid not in stats["known_hits"]:
@@ -753,6 +782,7 @@ def run(ctx):
         "checker_cmd": "cd lean && lake build SteelVerif.C02.Props && lake env lean SteelVerif/C02/Audit.lean",
         "trusted_base": C.TRUSTED_BASE + ["translate/c02_switches.py (regex extraction of env reads and the test applied)",
                                           "Base/Eval.lean as the third party (never the oracle of a C02 violation)"],
+        "leanchecker": recheck,
         "configurations": [cfg_text(c, values) for c in configs], "configuration_count": len(configs),
         "extracted_switches": extracted, "child_env_check": seen_env,
         "items": stats["items"], "pieces": stats["pieces"], "evaluations": stats["evaluations"],
